@@ -9,12 +9,14 @@ CODE MODEL for C06: the mechanisms behind `BusAuthenticator` (txdbus/authenticat
 
 2. `real`: `BusExternalAuthenticator`, `BusCookieAuthenticator`, `BusAnonymousAuthenticator` as step
    machines over an explicit environment:
-     creds      `protocol._unix_creds` (only its uid matters; `None` = not available)
+     creds      `protocol._unix_creds` (only its uid matters, an `int`, -1 when the kernel has no credentials
+                for the peer; `None` = not available)
      passwd     the entries `pwd.getpwnam` / `pwd.getpwuid` answer from (first match)
      dirs       state of `<home>/.dbus-keyrings` per home directory: absent / good (a directory without
                 group/other bits) / bad (anything else that exists)
      files      content of the cookie file per home directory (absent key = no file): (id, time, cookie)
-     now        `int(time.time())` (constant during one handshake - assumption)
+     now        `int(time.time())` (constant during one handshake - assumption); `nowFrac`: `time.time()` is not a
+                whole number (matters only for entries dated 30 s in the future)
      rnd        `os.urandom`: the k-th call with length n returns `rnd k n`
      sha1       `hashlib.sha1(x).digest()`
      ctx        `BusCookieAuthenticator.cookieContext`
@@ -68,9 +70,10 @@ structure CookieEnt where
 
 /-- The fixed part of the environment. -/
 structure EnvCfg where
-  creds : Option Nat
+  creds : Option Int
   passwd : List PwEnt
   now : Nat
+  nowFrac : Bool
   rnd : Nat → Nat → Bytes
   sha1 : Bytes → Bytes
   ctx : Bytes
@@ -105,12 +108,19 @@ def urandom (w : RealWorld) (n : Nat) : RealWorld × Bytes :=
 
 def getpwnam (cfg : EnvCfg) (name : Bytes) : Option PwEnt := cfg.passwd.find? (fun e => e.name = name)
 def getpwuid (cfg : EnvCfg) (uid : Nat) : Option PwEnt := cfg.passwd.find? (fun e => e.uid = uid)
+/-- `pwd.getpwuid` of a Python int (negative: KeyError) -/
+def getpwuidI (cfg : EnvCfg) (uid : Int) : Option PwEnt := if uid < 0 then none else getpwuid cfg uid.toNat
 
-/-- `_get_cookies()`: the unexpired entries (`abs(now - t) < 30`); no file: none. -/
+/-- `abs(timefunc() - int(k_time)) < 30` for a float `timefunc()` = `now` (+ a fraction when `nowFrac`). -/
+def unexpired (cfg : EnvCfg) (t : Nat) : Bool :=
+  if cfg.now ≥ t then cfg.now - t < cookieExpiry
+  else if cfg.nowFrac then t - cfg.now ≤ cookieExpiry else t - cfg.now < cookieExpiry
+
+/-- `_get_cookies()`: the unexpired entries; no file: none. -/
 def getCookies (w : RealWorld) (home : Bytes) : List CookieEnt :=
   match lookupFile w home with
   | none => []
-  | some es => es.filter (fun e => (if w.cfg.now ≥ e.time then w.cfg.now - e.time else e.time - w.cfg.now) < 30)
+  | some es => es.filter (fun e => unexpired w.cfg e.time)
 
 /-- The loop computing `cookie_id` in `_create_cookie`. -/
 def nextCookieId (es : List CookieEnt) : Nat :=
@@ -146,7 +156,7 @@ structure CookieSt where
 def CookieSt.init : CookieSt := ⟨0, none, none, [], [], []⟩
 
 inductive Inst where
-  | ext (ok : Bool) (creds : Option Nat)
+  | ext (ok : Bool) (creds : Option Int)
   | cookie (c : CookieSt)
   | anon
   deriving Repr
@@ -166,7 +176,7 @@ def resolveUser (cfg : EnvCfg) (username : Bytes) : Option Bytes :=
 def createCookie (w : RealWorld) (home : Bytes) : RealWorld × Nat × Bytes :=
   let cs := getCookies w home
   let cid := nextCookieId cs
-  let r := urandom w 24
+  let r := urandom w cookieRandomBytes
   let cookie := hexlify r.2
   (setFile r.1 home (some (cs ++ [⟨cid, w.cfg.now, cookie⟩])), cid, cookie)
 
@@ -174,7 +184,7 @@ def createCookie (w : RealWorld) (home : Bytes) : RealWorld × Nat × Bytes :=
 cookie, challenge, message. -/
 def cookieChallenge (w : RealWorld) (c : CookieSt) (home : Bytes) : RealWorld × CookieSt × Outcome :=
   let k := createCookie w home
-  let r := urandom k.1 8
+  let r := urandom k.1 challengeRandomBytes
   let chal := hexlify (w.cfg.sha1 r.2)
   (r.1, { c with cookieId := some k.2.1, cookie := k.2.2, challenge := chal },
    .challenge (w.cfg.ctx ++ 32 :: natToDec k.2.1 ++ 32 :: chal))
@@ -233,7 +243,11 @@ def real : MechSys RealWorld Inst where
     | .ext ok creds =>
       match creds with
       | none => (w, i, .reject)
-      | some _ => if !ok then (w, .ext true creds, .challenge []) else (w, i, .accept)
+      | some uid =>
+        -- repair C06-05: an unknown peer uid is rejected here (getUserName() would raise at BEGIN)
+        match getpwuidI w.cfg uid with
+        | none => (w, i, .reject)
+        | some _ => if !ok then (w, .ext true creds, .challenge []) else (w, i, .accept)
     | .cookie c => let r := cookieStep w c arg; (r.1, .cookie r.2.1, r.2.2)
     | .anon => (w, i, .accept)
   cancel w i :=
@@ -247,7 +261,7 @@ def real : MechSys RealWorld Inst where
     match i with
     | .ext _ creds =>
       match creds with
-      | some uid => (getpwuid w.cfg uid).map (·.name)
+      | some uid => (getpwuidI w.cfg uid).map (·.name)
       | none => none
     | .cookie c => c.username
     | .anon => some anonymousUser
